@@ -63,6 +63,7 @@ class FleetStore(Store):
         self._last_num_items = 0
         self._weighted_sum = 0.0
         self.time_averaged_num_of_items_in_store = 0.0  # Time-averaged number of items in the store
+        self.in_transit = []  # items that have left with a trip and are still under way (they stay in self.items until they arrive)
         self.activate_fleet= self.env.event()  # Event to activate the fleet when items are available
         
         self.env.process(self.fleet_activation_process())  # Start the fleet activation process
@@ -91,13 +92,14 @@ class FleetStore(Store):
             
             print(f"T={self.env.now:.2f}: Fleet activation process triggered.")
             
-            if self.items:
-                print(f"T={self.env.now:.2f}: Fleet activated with {len(self.items)} items ready.")
-                self.env.process(self.move_to_ready_items(self.items))
-                #self.env.process(self.move_to_ready_items(self.items))
-                if self.activate_fleet.triggered:
-                    #print("yes")
-                    self.activate_fleet = self.env.event()  # Reset the event for next activation
+            # the load of this trip: what is waiting now and has not left with an earlier trip
+            waiting = [item for item in self.items if item not in self.in_transit]
+            if waiting:
+                print(f"T={self.env.now:.2f}: Fleet activated with {len(waiting)} items ready.")
+                self.in_transit.extend(waiting)
+                self.env.process(self.move_to_ready_items(waiting))
+            if self.activate_fleet.triggered:
+                self.activate_fleet = self.env.event()  # Reset the event for next activation
 
     def reserve_put(self, priority=0):
         """
@@ -712,6 +714,7 @@ class FleetStore(Store):
                 
                 item_index = self.items.index(item)
                 item_to_put = self.items.pop(item_index)  # Remove the first item
+                self.in_transit.remove(item_to_put)
                
                 if len(self.ready_items) < self.capacity:
                     self.ready_items.append(item_to_put)
